@@ -5,3 +5,4 @@ pub mod wrappers;
 pub mod faults;
 pub mod interleave;
 pub mod http;
+pub mod sqlconf;
